@@ -201,8 +201,55 @@ where
     Ok(())
 }
 
+/// `()` elements: a slice longer than any allocation could be (it occupies no memory), regrouped into N-chunks and back.
+/// Counts come from the same floor division, every part starts at the source address (the stride is zero).
+fn huge_unit_chunks<N: ArrayLength, const K: usize>(l: usize, mutable: bool) -> Result<(), String>
+where
+    Const<K>: IntoArrayLength<ArrayLength = N>,
+{
+    let n = N::USIZE;
+    if n == 0 {
+        return Ok(());
+    }
+    let base = core::ptr::NonNull::<()>::dangling().as_ptr();
+    let src: &mut [()] = unsafe { core::slice::from_raw_parts_mut(base, l) };
+    let (cl, cp, rl, rp) = if mutable {
+        let (c, r) = GenericArray::<(), N>::chunks_from_slice_mut(src);
+        (c.len(), c.as_ptr() as usize, r.len(), r.as_ptr() as usize)
+    } else {
+        let (c, r) = GenericArray::<(), N>::chunks_from_slice(src);
+        (c.len(), c.as_ptr() as usize, r.len(), r.as_ptr() as usize)
+    };
+    if cl != l / n || rl != l % n {
+        return Err(format!("L = {l} zero-sized elements, N = {n}: {cl} chunks and a remainder of {rl}, expected {} and {}", l / n, l % n));
+    }
+    if cp != base as usize || rp != base as usize {
+        return Err(format!("L = {l} zero-sized elements, N = {n}: parts at {cp:#x} / {rp:#x}, the source is at {:#x}", base as usize));
+    }
+    let chunks: &[GenericArray<(), N>] = unsafe { core::slice::from_raw_parts(base as *const GenericArray<(), N>, l / n) };
+    let flat = GenericArray::<(), N>::slice_from_chunks(chunks);
+    if flat.len() != (l / n) * n || flat.as_ptr() as usize != base as usize {
+        return Err(format!("slice_from_chunks of {} zero-sized N = {n} chunks: length {} (expected {})", l / n, flat.len(), (l / n) * n));
+    }
+    let native = GenericArray::<(), N>::into_chunks(chunks);
+    if native.len() != l / n || native.as_ptr() as usize != base as usize {
+        return Err(format!("into_chunks of {} zero-sized chunks gave {} native arrays", l / n, native.len()));
+    }
+    let back = GenericArray::<(), N>::from_chunks(native);
+    if back.len() != l / n || back.as_ptr() as usize != base as usize {
+        return Err(format!("from_chunks of {} zero-sized native arrays gave {} chunks", l / n, back.len()));
+    }
+    Ok(())
+}
+
 fn exec_typed<T: Elem + Clone>(case: &Case, acc: &mut Acc) -> Result<(), String> {
     registry::reset();
+    if case.kind == Kind::Unit && case.l > 1 << 40 {
+        lat_const!(case.n, N, K, huge_unit_chunks::<N, K>(case.l, case.mutable))?;
+        acc.count(true, case);
+        acc.class("zero_sized_slice_longer_than_any_allocation");
+        return Ok(());
+    }
     lat_const!(case.n, N, K, chunk_case::<T, N, K>(case.l, case.mutable, case.salt))?;
     engine::end_case(false)?;
     let n = case.n;
@@ -255,6 +302,16 @@ pub fn main() {
             }
         }
     }
+    for &n in LENS {
+        if n == 0 {
+            continue;
+        }
+        for l in [isize::MAX as usize, isize::MAX as usize + 1, usize::MAX, usize::MAX - 1, (1usize << 63) + n, n * (1 << 48) + 1, (n << 32) + n - 1, (1 << 48) + (n << 16)] {
+            for mutable in [false, true] {
+                g.push(Case { n, l, kind: Kind::Unit, mutable, salt: 0 });
+            }
+        }
+    }
     if args.dump.is_some() {
         // cases dumped for the Miri stage: small, mostly the mutable forms (their write-through is what provenance mistakes break)
         g.retain(|c| [1usize, 2, 3, 5, 8].contains(&c.n) && c.l <= 2 * c.n + 1 && matches!(c.kind, Kind::U8 | Kind::U32 | Kind::U64 | Kind::Al32) && (c.mutable || c.l % 2 == 0));
@@ -273,7 +330,7 @@ pub fn main() {
         Report {
             prop: PROP,
             level: "exploration",
-            rule: "run-time half: case = (N in {0,1,2,3,4,5,7,8,16,17,31,32,33,63,64,100,255,256,1000,1024,2048,4096}, every L in 0..=4N+3 for N <= 64 and nine boundary L beyond, element kind u8/u32/(u8,u16)/()/u64/72-byte [u64;9]/32-byte-aligned, shared or mutable). \
+            rule: "run-time half: case = (N in {0,1,2,3,4,5,7,8,16,17,31,32,33,63,64,100,255,256,1000,1024,2048,4096}, every L in 0..=4N+3 for N <= 64 and nine boundary L beyond (for () also eight lengths no allocation could have: isize::MAX, isize::MAX+1, usize::MAX-1, usize::MAX, 2^63+N, N*2^48+1, N*2^32+N-1, 2^48+N*2^16), element kind u8/u32/(u8,u16)/()/u64/72-byte [u64;9]/32-byte-aligned, shared or mutable). \
                    Oracle: std's chunks_exact(N) + remainder(): chunk count floor(L/N), chunk i at the source address + i*N elements, remainder at + floor(L/N)*N with length L mod N; slice_from_chunks is the inverse (same address, floor(L/N)*N elements); from_chunks / into_chunks (and _mut) return the same address and count; writes through the mutable forms land in the source; N = 0: empty -> two empty results, non-empty -> panic. Only addresses and lengths are inspected before results are known to be in bounds. \
                    non-trivial = L not a multiple of N, or N = 0, or at least two chunks; distinct = distinct case tuples",
             exhaustive: false,
